@@ -3,6 +3,7 @@ package p_isaacb
 import (
 	"bytes"
 	"context"
+	"errors"
 	"fmt"
 	"runtime"
 	"strings"
@@ -120,6 +121,19 @@ type c38Phase struct {
 	LastH     int         // last block map: -1 none, else height 10+LastH (LastH 0..3)
 	LastPrev  int         // hash of the last manifest = prevs[LastPrev]
 	Workers   [][]c38Call // one list per goroutine
+
+	// history faults
+	Reopen    bool // before this phase the pool is closed and opened again on the same storage, with a new maker (node restart)
+	FaultFrom int  // 0: none; else the FaultFrom-th write to the storage issued while the calls of this phase run is refused ...
+	FaultN    int  // ... and so are the FaultN-1 writes after it (c38FaultSticky: every later write of the phase); writes work again after the phase
+}
+
+const c38FaultSticky = 1 << 20
+
+var errC38Fault = errors.New("c38 injected storage write failure")
+
+func c38IsFault(err error) bool {
+	return err != nil && (errors.Is(err, errC38Fault) || strings.Contains(err.Error(), errC38Fault.Error()))
 }
 
 type c38Program struct {
@@ -192,6 +206,15 @@ func c38GenProgram(t *rapid.T) c38Program {
 			ph.AddDuring = genFacts(lb+"dur", 4)
 		}
 
+		if i > 0 {
+			ph.Reopen = rapid.IntRange(0, 3).Draw(t, lb+"reopen") == 0
+		}
+
+		if rapid.IntRange(0, 2).Draw(t, lb+"fault") == 0 {
+			ph.FaultFrom = rapid.SampledFrom([]int{1, 1, 1, 2, 2, 3, 4}).Draw(t, lb+"faultFrom")
+			ph.FaultN = rapid.SampledFrom([]int{1, 1, 2, 3, c38FaultSticky}).Draw(t, lb+"faultN")
+		}
+
 		nw := rapid.IntRange(1, 8).Draw(t, lb+"workers")
 		if nw == 1 && rapid.Bool().Draw(t, lb+"atLeast2") {
 			nw = 2
@@ -226,6 +249,18 @@ func (p c38Program) fingerprint() string {
 
 	for i, ph := range p.Phases {
 		fmt.Fprintf(&b, " | ph%d add%v during%v last(%d,%d)", i, ph.Add, ph.AddDuring, ph.LastH, ph.LastPrev)
+
+		if ph.Reopen {
+			b.WriteString(" reopen")
+		}
+
+		switch {
+		case ph.FaultFrom < 1:
+		case ph.FaultN == c38FaultSticky:
+			fmt.Fprintf(&b, " refuse-writes(%d..)", ph.FaultFrom)
+		default:
+			fmt.Fprintf(&b, " refuse-writes(%d..%d)", ph.FaultFrom, ph.FaultFrom+ph.FaultN-1)
+		}
 
 		for g, calls := range ph.Workers {
 			fmt.Fprintf(&b, " g%d[", g)
@@ -268,7 +303,26 @@ func c38Run(t ev.TB, r *ev.Rec, w *c38World, p c38Program) (classes []string, no
 	if err != nil {
 		t.Fatalf("harness: pool: %v", err)
 	}
-	defer pool.Close()
+	defer func() { _ = pool.Close() }()
+
+	// storage write faults (hook H3): armed only while the calls of a phase run, only for this case's storage
+	var faultArmed atomic.Bool
+	var faultFrom, faultN, faultWrites, faultInjected atomic.Int64
+
+	leveldbstorage.VerifSetFaultController(func(s *leveldbstorage.Storage, _ string, _ int) error {
+		if s != st || !faultArmed.Load() {
+			return nil
+		}
+
+		if k, from := faultWrites.Add(1), faultFrom.Load(); k >= from && k-from < faultN.Load() {
+			faultInjected.Add(1)
+
+			return errC38Fault
+		}
+
+		return nil
+	})
+	defer leveldbstorage.VerifSetFaultController(nil)
 
 	var lastmu sync.Mutex
 	var last base.BlockMap
@@ -308,12 +362,14 @@ func c38Run(t ev.TB, r *ev.Rec, w *c38World, p c38Program) (classes []string, no
 		return pool.OperationHashes(ctx, height, uint64(p.Limit), filter)
 	}
 
-	maker := isaac.NewProposalMaker(w.local, w.networkID, getOperations, pool, func() (base.BlockMap, bool, error) {
+	lastBlockMap := func() (base.BlockMap, bool, error) {
 		lastmu.Lock()
 		defer lastmu.Unlock()
 
 		return last, last != nil, nil
-	})
+	}
+
+	maker := isaac.NewProposalMaker(w.local, w.networkID, getOperations, pool, lastBlockMap)
 
 	next := make([]int, c38Facts)
 	addOp := func(f int) {
@@ -331,6 +387,19 @@ func c38Run(t ev.TB, r *ev.Rec, w *c38World, p c38Program) (classes []string, no
 	poolNonEmptyDuringCalls := false
 
 	for pi, ph := range p.Phases {
+		if ph.Reopen {
+			// node restart: same storage, new pool object (getOperations and addOp follow the variable), new maker
+			if err := pool.Close(); err != nil {
+				t.Fatalf("harness: pool close: %v", err)
+			}
+
+			if pool, err = isaacdatabase.NewTempPool(st, w.db.Encs, w.db.Enc, 0); err != nil {
+				t.Fatalf("harness: pool reopen: %v", err)
+			}
+
+			maker = isaac.NewProposalMaker(w.local, w.networkID, getOperations, pool, lastBlockMap)
+		}
+
 		for _, f := range ph.Add {
 			addOp(f)
 		}
@@ -408,15 +477,25 @@ func c38Run(t ev.TB, r *ev.Rec, w *c38World, p c38Program) (classes []string, no
 				for _, op := range during {
 					runtime.Gosched()
 
-					if _, err := pool.SetOperation(context.Background(), op); err != nil {
+					// a refused write may hit this writer instead of the maker: the operation is then not in the pool
+					if _, err := pool.SetOperation(context.Background(), op); err != nil && !c38IsFault(err) {
 						panic(err)
 					}
 				}
 			}()
 		}
 
+		if ph.FaultFrom > 0 {
+			faultWrites.Store(0)
+			faultFrom.Store(int64(ph.FaultFrom))
+			faultN.Store(int64(ph.FaultN))
+			faultArmed.Store(true)
+		}
+
 		close(start)
 		wg.Wait()
+
+		faultArmed.Store(false)
 	}
 
 	// ---- oracle
@@ -554,10 +633,25 @@ func c38Run(t ev.TB, r *ev.Rec, w *c38World, p c38Program) (classes []string, no
 
 	nerr := 0
 
+	// a call that failed on a refused write, and the same position answered (by another call) in the same or a later phase
+	refusedThenAnswered, anyReopen := false, false
+
 	for _, res := range results {
 		if res.Err != nil {
 			nerr++
 		}
+
+		if c38IsFault(res.Err) {
+			for _, other := range byPos[res.Call.Pos] {
+				if other.Phase >= res.Phase {
+					refusedThenAnswered = true
+				}
+			}
+		}
+	}
+
+	for _, ph := range p.Phases {
+		anyReopen = anyReopen || ph.Reopen
 	}
 
 	if concurrentSamePos {
@@ -588,6 +682,18 @@ func c38Run(t ev.TB, r *ev.Rec, w *c38World, p c38Program) (classes []string, no
 		classes = append(classes, "some-calls-refused")
 	}
 
+	if faultInjected.Load() > 0 {
+		classes = append(classes, "storage-write-refused")
+	}
+
+	if refusedThenAnswered {
+		classes = append(classes, "position-asked-again-after-refused-write")
+	}
+
+	if anyReopen {
+		classes = append(classes, "pool-reopened-on-same-storage")
+	}
+
 	for _, b := range p.Reject {
 		if b {
 			classes = append(classes, "with-filter")
@@ -596,7 +702,7 @@ func c38Run(t ev.TB, r *ev.Rec, w *c38World, p c38Program) (classes []string, no
 		}
 	}
 
-	nontrivial = concurrentSamePos && poolNonEmptyDuringCalls
+	nontrivial = (concurrentSamePos && poolNonEmptyDuringCalls) || refusedThenAnswered
 
 	return classes, nontrivial
 }
@@ -607,10 +713,14 @@ func TestC38(t *testing.T) {
 	r.Rule("real ProposalMaker over a real TempPool (mem leveldb), getOperations = pool.OperationHashes(limit 1..10, optional fact filter as launch uses); " +
 		"1..3 phases; per phase: 0..8 operations added (4 facts, so duplicate facts with distinct operation hashes), last block map none/height 10..13 with one of two hashes, " +
 		"1..8 goroutines (barrier start) each calling Make/PreferEmpty 1..3 times for positions from 3 heights x 2 rounds x 2 previous blocks (1-2 hot positions), " +
-		"optionally operations added concurrently. non-trivial: >=2 goroutines ask for one position in one phase and the pool is not empty; distinct by the whole program")
+		"optionally operations added concurrently; history faults: in 1/3 of the phases the k-th (1..4) storage write issued while the calls run is refused (1, 2, 3 or all later writes of the phase; " +
+		"leveldb fault hook H3), writes work again afterwards; in 1/4 of the later phases the pool is closed and re-opened on the same storage with a new maker (restart). " +
+		"non-trivial: >=2 goroutines ask for one position in one phase and the pool is not empty, or a call failed on a refused write and the same position was answered in the same or a later phase; distinct by the whole program")
 	r.Floor(100)
 	r.Assume(
-		"an error return (e.g. too old) is not a proposal and is not judged; a panic out of Make/PreferEmpty is judged as a failure to return the proposal",
+		"an error return (e.g. too old, or the storage refused the write) is not a proposal and is not judged; a panic out of Make/PreferEmpty is judged as a failure to return the proposal",
+		"a proposal returned without error counts as handed out whatever happened to the storage write: all proposals handed out for one position over the whole history (refused writes, restarts) must be the same, and the pool's by-point lookup must return it",
+		"a refused storage write returns an error to the pool and leaves the storage unchanged (no partial batch); refused writes that hit the concurrent SetOperation writer only keep that operation out of the pool",
 		"'the same signed proposal' = same fact hash and same HashBytes; 'for that position' = the fact carries the asked point, previous block and the local proposer",
 		"the pool cleanup daemon (33 min tick) is not running",
 		"goroutine interleavings are sampled (barrier start, bounded pause inside getOperations), not enumerated",
